@@ -206,6 +206,35 @@ theorem inv_validate (cfg : Cfg) (st : St) (now now' key : Nat) (answers : List 
         · simpa [ha, h1, h2, Inv] using ⟨hp, hq⟩
 
 
+/-! ## Histories: every reachable state satisfies the invariant -/
+
+/-- state and clock after a whole history -/
+def after (cfg : Cfg) : St → Nat → List Step → St × Nat
+  | st, now, [] => (st, now)
+  | st, now, s :: rest =>
+    after cfg (validate cfg st (now + s.adv) s.key s.answers).2.2 (now + s.adv) rest
+
+theorem inv_after (cfg : Cfg) (steps : List Step) : ∀ (st : St) (now : Nat), Inv now st →
+    Inv (after cfg st now steps).2 (after cfg st now steps).1 := by
+  induction steps with
+  | nil => intro st now h; exact h
+  | cons s ss ih =>
+    intro st now h
+    exact ih _ _ (inv_validate cfg st now (now + s.adv) s.key s.answers h (Nat.le_add_right _ _))
+
+/-- After **any** history of validations (any keys, answers and clock advances) on a fresh firewall,
+    the next validation `adv` seconds later finds a key positively (negatively) cached **iff** an
+    entry for it was stamped within the last `posSpan` (`negSpan`) seconds: answers are reused within
+    their caching period and never beyond it. -/
+theorem reachable_no_stale (cfg : Cfg) (steps : List Step) (adv k : Nat) :
+    let st := (after cfg St.empty 0 steps).1
+    let now := (after cfg St.empty 0 steps).2 + adv
+    (has (sweep cfg.posSpan now st.pos) k = true ↔ ∃ e ∈ st.pos, e.key = k ∧ now ≤ e.t + cfg.posSpan) ∧
+    (has (sweep cfg.negSpan now st.neg) k = true ↔ ∃ e ∈ st.neg, e.key = k ∧ now ≤ e.t + cfg.negSpan) := by
+  intro st now
+  have h := inv_after cfg steps St.empty 0 inv_empty
+  exact ⟨no_stale_beyond_period _ _ _ h.1.1 k, no_stale_beyond_period _ _ _ h.2.1 k⟩
+
 /-! ## The monitor accepts every model history -/
 
 private theorem report_any (now : Nat) (c : Cache) (k : Nat) :
